@@ -656,13 +656,19 @@ func c19Run(in0 interface{}) Result {
 		fc := &c19Conn{segs: segs}
 		hc, get := httpserver.VerifC19NewHelloConn(fc)
 		var pass []byte
+		readErr := ""
 		p, msg := c19Try(func() {
 			buf := make([]byte, 1<<17)
 			for range segs {
-				n, _ := hc.Read(buf)
+				n, err := hc.Read(buf)
 				pass = append(pass, buf[:n]...)
+				if err != nil {
+					readErr = err.Error()
+				}
 			}
-			hc.Read(buf) // the EOF read
+			if _, err := hc.Read(buf); err != io.EOF { // the EOF read
+				readErr = fmt.Sprint("final read: ", err)
+			}
 		})
 		var rec *c19Info
 		if info, ok := get(); ok {
@@ -691,6 +697,8 @@ func c19Run(in0 interface{}) Result {
 			Class: fmt.Sprintf("%s:segs%d", sig, c19Bucket(len(segs)))}
 		if p {
 			res.Direct = "clientHelloConn.Read panicked: " + msg
+		} else if readErr != "" {
+			res.Direct = "clientHelloConn.Read returned an error the underlying connection did not produce: " + readErr
 		}
 		return res
 	case "link":
